@@ -17,3 +17,63 @@ func init() {
 		func(b []byte) (*astisub.Subtitles, error) { return astisub.ReadFromTTML(bytes.NewReader(b)) },
 		func(s *astisub.Subtitles, w *bytes.Buffer) error { return s.WriteToTTML(w) }})
 }
+
+// Text that is not XML-legal carried into a TTML destination (second audit, N4): the sources are SubRip, WebVTT and SSA
+// documents written by the library from cue lists whose words contain control characters, NUL, U+FFFE / U+FFFF and bytes
+// that are not UTF-8; the library's TTML bytes (U+FFFD substitution by xml.EscapeText) vs the model's conversion through
+// the plain view with the Go-exact TTML encoder (ttml_enc over write_ttml_bytes_go); outside a source reader's
+// faithful domain only the class is compared.
+func suiteConvertIllegalToTtml(R *runner, r *rng) {
+	R.rule("conversion into TTML of text that is not XML-legal: plain cue lists whose words carry 0x01, 0x0B, 0x1F, NUL, U+FFFE, U+FFFF and non-UTF-8 bytes, written by the library as SubRip / WebVTT / SSA, read back and written as TTML; destination bytes vs convert_plain with the Go-exact TTML encoder")
+	N := 30
+	if R.tier == "thorough" {
+		N = 400
+	}
+	var ttml plainCodec
+	for _, c := range plainCodecs {
+		if c.name == "ttml" {
+			ttml = c
+		}
+	}
+	bad := []string{"\x01", "\x0b", "\x1f", "\x00", "\xef\xbf\xbe", "\xef\xbf\xbf", "\xff", "\xc0\x80", "\x7f", "\u0085"}
+	for c := 0; c < N; c++ {
+		for _, src := range plainCodecs {
+			if src.name != "srt" && src.name != "vtt" && src.name != "ssa" {
+				continue
+			}
+			cues := plainCues(r, 1+r.intn(3))
+			for i := range cues {
+				for j := range cues[i].Lines {
+					cues[i].Lines[j][0].Text = "a" + bad[r.intn(len(bad))] + "b" + cues[i].Lines[j][0].Text
+				}
+				cues[i].Start -= cues[i].Start % src.unit
+				cues[i].End -= cues[i].End % src.unit
+				if cues[i].End <= cues[i].Start {
+					cues[i].End = cues[i].Start + src.unit
+				}
+			}
+			var buf bytes.Buffer
+			if err := src.write(subsFromCues(cues), &buf); err != nil {
+				continue
+			}
+			doc := buf.Bytes()
+			s, err := src.read(doc)
+			if err != nil || len(s.Items) == 0 {
+				R.count("plain.illegal." + src.name + ".source_rejected")
+				continue
+			}
+			var out bytes.Buffer
+			o := &obs{Suite: "convplain", Group: "plain.illegal." + src.name + "->ttml", Input: (&enc{}).n(src.code).n(ttml.code).bytes(doc).String(), NT: true,
+				Human: map[string]interface{}{"source": src.name, "document": string(doc)}}
+			if werr := ttml.write(s, &out); werr != nil {
+				o.Impl = "1"
+			} else {
+				o.Impl = (&enc{}).n(0).bytes(out.Bytes()).String()
+				if bytes.Contains(out.Bytes(), []byte("\xef\xbf\xbd")) {
+					R.count("plain.illegal." + src.name + "->ttml.substituted")
+				}
+			}
+			R.add(o)
+		}
+	}
+}
